@@ -12,7 +12,7 @@ LEVEL = ("hash-seed clause: every place where the ORDER of a set-typed value is 
          "list()/next(iter())/pop(); Jinja for/join/list/first) is enumerated from the typed program (abstract interpreter "
          "types for Python, template interpreter for Jinja); each is sorted, a proven singleton, feeds an order-insensitive "
          "update, or is a frozen diagnostics-only case. Environment-dependent sources are enumerated. Permutation clause "
-         "(narrow): aggregates are sorted, worklist rounds reset their errors, suffix tests on reference paths are "
+         "(narrow): aggregates are sorted, worklist rounds reset their errors and let any item of a round ask for the next one, suffix tests on reference paths are "
          "separator-anchored, re-registrations of shared classes are monotone, late-filled fields of copied "
          "classes are read by templates only on the rendered object itself, context-less imported templates keep no macro-written "
          "module state, the parsed document is written by nobody outside the schema package (a node is visited more than once), what "
@@ -114,8 +114,9 @@ def run(rep: Report, ctx: Any) -> str:
     it, ji = ctx.flow
     rep.rule("R12.1", "no observation of the order of a set reaches generated output: sorted / singleton / order-insensitive / "
                       "diagnostics-only (frozen); no environment-dependent source is used")
-    rep.rule("R12.2", "aggregates are emitted through a sort; worklist rounds take errors from the last round only; suffix tests "
-                      "on reference paths are separator-anchored; updates of already registered classes are monotone")
+    rep.rule("R12.2", "aggregates are emitted through a sort; worklist rounds take errors from the last round only, and what decides about "
+                      "another round is bound monotonically per item (one constant, or accumulated from itself) and can be moved by an item; "
+                      "suffix tests on reference paths are separator-anchored; updates of already registered classes are monotone")
     rep.rule("R12.3", "a field that is filled in after construction (declared Optional, written outside the constructors) of a class whose "
                       "instances are also copied without it is read by templates only on the object handed to render(), never on an "
                       "object reached through fields / loops / macro parameters (that may be a copy taken before the field was filled)")
@@ -277,6 +278,9 @@ def run(rep: Report, ctx: Any) -> str:
         inplace.check(rep, ctx, "R12.7")
     else:
         rep.not_decided += ["in-place registration into the threaded registries (shared rule inplace.py not present in this tree)"]
+    rep.not_decided += ["independence of the tree from what an earlier run left in the output directory (stated by C01 R01.9 / C08 R08.10 / C19 "
+                        "R19.3; evaluating that rule here was tried and given up: it reports correct rewrites of the wipe - a loop over the "
+                        "directory names, a local name for the package directory, `if path.exists(): rmtree(path)` in a helper)"]
     rep.not_decided += ["invariance under permutation as such (class-name collisions and {name}_type_{i} numbering are order-sensitive "
                         "by construction; the property restricts itself to documents without diagnostics)"]
     return LEVEL
@@ -357,6 +361,7 @@ def _round_loops(rep: Report, ix: Any) -> None:
 
     cfgs: dict[str, Any] = {}
     n_rounds = 0
+    n_driven = [0]
     for f in ix.all_functions:
         for loop in [n for n in ast.walk(f.node) if isinstance(n, (ast.While, ast.For, ast.AsyncFor))]:
             # -- the round's scope: the loop body and the private helpers called from it
@@ -461,6 +466,7 @@ def _round_loops(rep: Report, ix: Any) -> None:
                     if c not in stale and any(same.find((g.qual, p)) in stale for p in _paths_in(payload)):
                         stale[c] = m
                         changed = True
+            n_driven[0] += _round_progress(rep, f, loop, scope, same, by_name, alias_calls)
             rep.check(bool(stale), "R12.2", f"{short(f)}::round-structure", "the worklist loop re-queues items but records no error "
                       "together with the re-queue", where(f, loop), lhs=[sorted(work), sorted({m[2] for m in requeues})],
                       rhs="work list re-bound per round, errors recorded with the re-queue")
@@ -511,6 +517,135 @@ def _round_loops(rep: Report, ix: Any) -> None:
                           f"{why}: it accumulates the errors of items that are re-queued, so whether an error is reported depends on the "
                           "order of definitions", where(g, st), lhs=recv, rhs="starts empty in every round")
     rep.floor("progress_loops", n_rounds, 1)
+    rep.floor("round_loops_driven_by_what_the_items_did", n_driven[0], 1)
+
+
+def _shallow(stmts: list[ast.stmt]) -> Any:
+    """the statements of a loop body that belong to the loop itself: not those of the loops (and definitions) nested in it"""
+    for st in stmts:
+        yield st
+        if isinstance(st, (ast.For, ast.AsyncFor, ast.While, ast.FunctionDef, ast.AsyncFunctionDef, ast.ClassDef)):
+            continue
+        for fld in ("body", "orelse", "finalbody"):
+            sub = getattr(st, fld, None)
+            if isinstance(sub, list) and sub and isinstance(sub[0], ast.stmt):
+                yield from _shallow(sub)
+        for h in getattr(st, "handlers", None) or []:
+            yield from _shallow(h.body)
+        for c in getattr(st, "cases", None) or []:
+            yield from _shallow(c.body)
+
+
+def _round_progress(rep: Report, f: Any, loop: ast.AST, scope: list[tuple[Any, list[ast.stmt]]], same: "_Same", by_name: dict[str, Any],
+                    alias_calls: set[int]) -> bool:
+    """Another round is run as long as the last one got somewhere - that is what makes the result independent of the order in which
+    the items are declared, and it only works if ANY item of the round can ask for the next one.  The variables that decide about
+    another round are found by role: what the `while` test of the round loop reads, and what the tests read that lead to a `break` /
+    `return` of the round loop itself.  Such a variable is followed into the helpers of the round under the names it has there
+    (handed in, returned, unpacked).  Every binding of it that is executed once per item - inside a loop nested in the round, in the
+    round body or in a helper, or anywhere in a helper that is called from such a loop - must
+      * be monotone: the same constant everywhere, or a value computed from the variable itself (`x = x or ok`, `n += 1`); a binding
+        to something else makes the last item of the round decide alone;
+      * and, where the round puts the variable back to a constant first, some per-item binding must be able to move it away from
+        that constant (another constant, or an accumulation the constant does not absorb) - or the round computes it afterwards.
+    Indifferent to flag versus counter, `while flag` versus `while True` + break, polarity, and to where the round or the item step
+    lives.  Returns whether the loop has such a variable with per-item bindings (for the floor)."""
+    lc = Locals(f.node)
+    tests: list[ast.expr] = [loop.test] if isinstance(loop, ast.While) else []
+    for st in _shallow(loop.body):
+        if isinstance(st, ast.If) and any(isinstance(x, (ast.Break, ast.Return)) for x in _shallow([*st.body, *st.orelse])):
+            tests.append(st.test)
+    deciders = sorted({nm for t in tests for nm in names_in_load(t) if nm in lc.defs})
+    if not deciders:
+        return False
+    # -- which statements of the round run once per item
+    per_item: dict[str, set[int]] = {}
+    for g, stmts in scope:
+        inner = [n for st in (loop.body if g is f else g.node.body) for n in ast.walk(st) if isinstance(n, (ast.For, ast.AsyncFor, ast.While))]
+        per_item[g.qual] = {id(s) for lp in inner for st in [*lp.body, *lp.orelse] for s in ast.walk(st) if isinstance(s, ast.stmt)}
+    every: set[str] = set()   # helpers that are called from a per-item statement: all of their statements are per item
+    for _ in range(len(scope) + 1):
+        grown = False
+        for g, stmts in scope:
+            for st in stmts:
+                if g.qual in every or id(st) in per_item[g.qual]:
+                    for c in walk_own_calls(st):
+                        h = by_name.get(call_name(c).rsplit(".", 1)[-1])
+                        if h is not None and h.qual not in every and h.qual != f.qual:
+                            every.add(h.qual)
+                            grown = True
+        if not grown:
+            break
+    found = False
+    for d in deciders:
+        cls = same.find((f.qual, d))
+        rnd: list[tuple[str, Any, str]] = []    # bindings made once per round: (kind, detail, text)
+        item: list[tuple[str, Any, str, Any, ast.stmt]] = []
+        for g, stmts in scope:
+            for st in stmts:
+                got: list[tuple[str, ast.AST | None, ast.AST | None]] = [(t, v, None) for t, v in _bindings(st)]
+                if isinstance(st, ast.AugAssign) and _is_path(st.target):
+                    got.append((norm(st.target), st.value, st.op))
+                from ..cfg import walk_own
+
+                got += [(n.target.id, n.value, None) for n in walk_own(st) if isinstance(n, ast.NamedExpr) and isinstance(n.target, ast.Name)]
+                for t, v, aug in got:
+                    if same.find((g.qual, t)) != cls:
+                        continue
+                    mentions = v is not None and any(same.find((g.qual, p_)) == cls for p_ in _paths_in(v))
+                    if aug is not None:
+                        kind, detail = "accumulates", type(aug).__name__
+                    elif isinstance(v, ast.Constant):
+                        kind, detail = "constant", repr(v.value)
+                    elif mentions:
+                        kind, detail = "accumulates", type(v.op).__name__ if isinstance(v, (ast.BoolOp, ast.BinOp)) else "other"
+                    elif isinstance(v, ast.Call) and id(v) in alias_calls and not (g.qual in every or id(st) in per_item[g.qual]):
+                        continue  # the round's helper hands the variable back: its bindings there are judged under this class
+                    elif _examined_with_exit(g, st, {nm for q, nm in same.members(cls) if q == g.qual}):
+                        continue  # `x = step(item); if x: break`: the value is acted upon before the next item replaces it
+                    else:
+                        kind, detail = "computed", norm(v)[:60] if v is not None else "?"
+                    if g.qual in every or id(st) in per_item[g.qual]:
+                        item.append((kind, detail, norm(st)[:70], g, st))
+                    else:
+                        rnd.append((kind, detail, norm(st)[:70]))
+        if not item and not rnd:
+            continue  # decided outside the round (a limit handed in, ...): nothing to state
+        found = found or bool(item)
+        consts = sorted({x[1] for x in item if x[0] == "constant"})
+        overwritten = [x for x in item if x[0] == "computed"]
+        g0, st0 = (overwritten[0][3], overwritten[0][4]) if overwritten else (item[0][3], item[0][4]) if item else (f, loop)
+        key = f"{short(f)}::round-progress" + (f"[{deciders.index(d)}]" if len(deciders) > 1 else "")
+        rep.check(not overwritten and len(consts) <= 1, "R12.2", key,
+                  f"what decides about another round of the worklist loop is overwritten once per item ({[x[2] for x in overwritten] or consts}): "
+                  "the last item of a round decides alone, so whether a forward reference gets the round it needs depends on the order of "
+                  "definitions in the document", where(g0, st0), lhs=[(x[0], x[1]) for x in item],
+                  rhs="per item: one constant, or a value accumulated from the variable itself")
+        resets = sorted({x[1] for x in rnd if x[0] == "constant"})
+        if rnd and len(resets) == len({(x[0], x[1]) for x in rnd}):  # the round only ever puts it back to constants
+            absorbing = {"False": ("And", "BitAnd", "Mult"), "True": ("Or", "BitOr"), "0": ("Mult", "BitAnd", "And")}
+            moves = [x for x in item if (x[0] == "constant" and x[1] not in resets) or x[0] == "computed" or
+                     (x[0] == "accumulates" and not all(x[1] in absorbing.get(r, ()) for r in resets))]
+            rep.check(bool(moves), "R12.2", key + "::moved", "the round puts the variable that decides about another round back to "
+                      f"{resets} and nothing that is executed per item can move it away from that: the items of a round cannot ask for the "
+                      "next one, a forward reference is never retried", where(f, loop), lhs=[(x[0], x[1]) for x in item],
+                      rhs="a per-item binding to another constant / a non-absorbed accumulation")
+    return found
+
+
+def _examined_with_exit(g: Any, st: ast.stmt, names: set[str]) -> bool:
+    """the loop in which statement st of g binds one of `names` is left (break / return / raise) under a test of that variable: a value
+    that stops the traversal is not overwritten by the next item"""
+    from ..astutil import enclosing_loop_body
+
+    lp = enclosing_loop_body(g.node, st)
+    if lp is None:
+        return False
+    for x in _shallow(lp.body):
+        if isinstance(x, ast.If) and _paths_in(x.test) & names and \
+                any(isinstance(y, (ast.Break, ast.Return, ast.Raise)) for y in _shallow([*x.body, *x.orelse])):
+            return True
+    return False
 
 
 def walk_own_calls(st: ast.stmt) -> list[ast.Call]:
